@@ -121,7 +121,7 @@ def judgeStep (i : Nat) (op : Op) (prev o : Obs) (relinked : Bool) : Option Stri
                 if k != mx + 1 then
                   return some s!"op {i}: numbered install created run{k}, expected run{mx + 1} (one more than the highest existing run)"
               if o.runN != some t then
-                return some s!"op {i}: after installing {t}, runN points to {o.runN}"
+                return some s!"op {i}: after installing {t}, runN points to {o.runN.getD "nothing"}"
     else
       if o.runs != prev.runs || o.flat != prev.flat then
         return some s!"op {i}: a failed install changed the run directories"
